@@ -619,6 +619,9 @@ pub fn handle_xreadgroup(storage: &Arc<StorageEngine>, db: usize, parts: &[RespF
     let num_keys = remaining / 2;
     let mut results = Vec::new();
     
+    // Every key must hold a stream with this group before anything is delivered
+    let mut reads = Vec::with_capacity(num_keys);
+    
     for j in 0..num_keys {
         let key = match &parts[i + j] {
             RespFrame::BulkString(Some(bytes)) => bytes.as_ref(),
@@ -634,8 +637,14 @@ pub fn handle_xreadgroup(storage: &Arc<StorageEngine>, db: usize, parts: &[RespF
         let stream = match storage.get(db, key)? {
             GetResult::Found(Value::Stream(stream)) => stream,
             GetResult::Found(_) => return Ok(RespFrame::error("WRONGTYPE Operation against a key holding the wrong kind of value")),
-            _ => continue, // Skip non-existent keys
+            _ => return Ok(RespFrame::error(format!(
+                "NOGROUP No such key '{}' or consumer group '{}' in XREADGROUP with GROUP option",
+                String::from_utf8_lossy(key), group_name))),
         };
+        
+        if stream.get_consumer_group(&group_name).is_none() {
+            return Ok(RespFrame::error(format!("NOGROUP No such consumer group {} for stream", group_name)));
+        }
         
         // Parse the ID
         let after_id = if id_str == ">" {
@@ -649,6 +658,10 @@ pub fn handle_xreadgroup(storage: &Arc<StorageEngine>, db: usize, parts: &[RespF
             }
         };
         
+        reads.push((key, stream, after_id));
+    }
+    
+    for (key, stream, after_id) in reads {
         // Read entries for the group
         match stream.read_group(&group_name, &consumer_name, after_id, count, noack) {
             Ok(entries) if !entries.is_empty() => {
@@ -765,13 +778,15 @@ pub fn handle_xpending(storage: &Arc<StorageEngine>, db: usize, parts: &[RespFra
     let stream = match storage.get(db, key)? {
         GetResult::Found(Value::Stream(stream)) => stream,
         GetResult::Found(_) => return Ok(RespFrame::error("WRONGTYPE Operation against a key holding the wrong kind of value")),
-        _ => return Ok(RespFrame::null_array()),
+        _ => return Ok(RespFrame::error(format!("NOGROUP No such key '{}' or consumer group '{}'",
+            String::from_utf8_lossy(key), group_name))),
     };
     
     // Get the consumer group
     let group = match stream.get_consumer_group(&group_name) {
         Some(group) => group,
-        None => return Ok(RespFrame::null_array()),
+        None => return Ok(RespFrame::error(format!("NOGROUP No such key '{}' or consumer group '{}'",
+            String::from_utf8_lossy(key), group_name))),
     };
     
     if parts.len() == 3 {
@@ -953,7 +968,8 @@ pub fn handle_xclaim(storage: &Arc<StorageEngine>, db: usize, parts: &[RespFrame
     let stream = match storage.get(db, key)? {
         GetResult::Found(Value::Stream(stream)) => stream,
         GetResult::Found(_) => return Ok(RespFrame::error("WRONGTYPE Operation against a key holding the wrong kind of value")),
-        _ => return Ok(RespFrame::Array(Some(Vec::new()))),
+        _ => return Ok(RespFrame::error(format!("NOGROUP No such key '{}' or consumer group '{}'",
+            String::from_utf8_lossy(key), group_name))),
     };
     
     // Claim messages
